@@ -5,7 +5,7 @@
    statement is partial in that respect). All statements are for all inputs (any triangle count, any
    bone count, any assignment) inside an explicitly stated accepted domain. *)
 From NiflyVerif Require Import Res UtilModel UtilSpec CompactProofs EraseProofs FillProofs SkinModel SkinLib
-  SkinGenProofs SkinPartsProofs SkinOpsProofs SkinSplitProofs SkinUpdateProofs SkinTheorems.
+  SkinGenProofs SkinPartsProofs SkinOpsProofs SkinSplitProofs SkinUpdateProofs SkinTriPartsProofs SkinTheorems.
 From Coq Require Import Sorted Permutation QArith.
 Local Open Scope N_scope.
 
@@ -290,21 +290,41 @@ Theorem C10_prepare_triparts_current : forall (ts : list tri) (s : ks_sp),
 Proof. exact ks_prepare_triparts_current. Qed.
 Print Assumptions C10_prepare_triparts_current.
 
-(* ... or it is regenerated (after SetDefaultPartition, after a reload): for partitions without
-   strips this is total, the regenerated assignment has one entry per triangle, every entry is a
-   partition index or -1, and it is -1 ("not assigned", as documented for GetShapePartitions) for
-   every triangle that no partition holds. No partition at all is fine. *)
+(* ... or it is regenerated (after SetDefaultPartition, after a reload): total for partitions
+   without strips; the result is the pure function [ks_regen_tp] of the shape triangles and the
+   partitions (with their true triangles prepared). No partition at all is fine. *)
 Theorem C10_prepare_triparts_regenerated : forall (ts : list tri) (s : ks_sp),
   vlen ts <> vlen (kp_tp s) ->
   Forall (fun p => kb_ns p = 0 /\ vlen (kb_tris p) < 2 ^ 31) (kp_parts s) ->
   exists s0, ks_sp_prepare_triparts ts s = Ok s0 /\ length (kp_parts s0) = length (kp_parts s) /\
-    kp_mapped s0 = kp_mapped s /\ length (kp_tp s0) = length ts /\
-    Forall (fun pj => (-1 <= pj < Z.of_nat (length (kp_parts s0)))%Z) (kp_tp s0) /\
-    (forall i t, nth_error ts i = Some t ->
-       (forall p pt, In p (kp_parts s0) -> In pt (kb_tt p) -> ks_rot pt <> ks_rot t) ->
-       nth_error (kp_tp s0) i = Some (-1)%Z).
+    kp_mapped s0 = kp_mapped s /\ kp_tp s0 = ks_regen_tp ts (kp_parts s0).
 Proof. exact ks_prepare_triparts_regen. Qed.
 Print Assumptions C10_prepare_triparts_regenerated.
+
+(* The regenerated triParts (GenerateTriPartsFromTrueTriangles: every copy of a triangle held by a
+   partition claims one shape triangle that is not assigned yet), duplicate shape triangles included.
+   Triangles are compared up to Triangle::rot; [ks_shape_copies c ts] = copies of c in the shape,
+   [ks_held c parts] = copies held by the partitions, [ks_held_in c p] = copies held by p:
+   one entry per triangle, a partition index or -1; -1 ("not assigned") for a triangle nobody holds;
+   an assigned triangle is assigned to a partition that holds a copy of it; of k shape copies and h
+   held copies, k - h stay unassigned; with h <= k partition j gets exactly as many shape copies as it
+   holds; with k <= h every shape copy is assigned ("a held triangle gets the index of a partition
+   holding it"). *)
+Theorem C10_regenerated_triparts : forall (ts : list tri) (parts : list ks_pb),
+  let tp := ks_regen_tp ts parts in
+  length tp = length ts /\
+  Forall (fun pj => (-1 <= pj < Z.of_nat (length parts))%Z) tp /\
+  (forall i t, nth_error ts i = Some t ->
+     (forall p pt, In p parts -> In pt (kb_tt p) -> ks_rot pt <> ks_rot t) -> nth_error tp i = Some (-1)%Z) /\
+  (forall i t j, nth_error ts i = Some t -> nth_error tp i = Some j -> (0 <= j)%Z ->
+     exists p pt, nth_error parts (Z.to_nat j) = Some p /\ In pt (kb_tt p) /\ ks_rot pt = ks_rot t) /\
+  (forall c, ks_cnt (ks_is_free c) ts tp = (ks_shape_copies c ts - ks_held c parts)%nat) /\
+  (forall c, (ks_held c parts <= ks_shape_copies c ts)%nat -> forall j p, nth_error parts j = Some p ->
+     ks_cnt (ks_is_asg c (Z.of_nat j)) ts tp = ks_held_in c p) /\
+  (forall c i t, (ks_shape_copies c ts <= ks_held c parts)%nat -> nth_error ts i = Some t -> ks_rot t = c ->
+     exists j, nth_error tp i = Some j /\ (0 <= j)%Z).
+Proof. exact ks_regen_tp_spec. Qed.
+Print Assumptions C10_regenerated_triparts.
 
 (* UpdateSkinPartitions with no partition left (SetDefaultPartition, DeletePartitions {0},
    UpdateSkinPartitions) is inside the accepted domain and leaves every triangle unassigned *)
@@ -368,6 +388,11 @@ Example C10_get_unassigned_example :
   let p := kb_set_tt (kb_set_vm ks_pb0 [0; 1; 2]) [(0, 1, 2)] in
   exists info k', ks_nf_get KFO3 sh (ks_mkSkin (ks_mkSP 1 [p] true []) (Some [(1, 0)]) []) = Ok (info, [0; -1]%Z, k').
 Proof. exact ks_get_unassigned_minus_one. Qed.
+
+Example C10_regenerated_duplicates_example :
+  ks_regen_tp [(0, 4, 2); (2, 0, 4); (1, 0, 3); (7, 8, 9)]
+              [kb_set_tt ks_pb0 [(0, 4, 2)]; kb_set_tt ks_pb0 [(4, 2, 0); (1, 0, 3)]] = [0; 1; 1; -1]%Z.
+Proof. exact ks_regen_duplicates_example. Qed.
 
 Example C10_update_splits_example :
   exists k', ks_nf_update KFO3 (fst ks_wit_short) ks_wit_short_aligned = Ok k' /\
